@@ -207,12 +207,29 @@ def run_model(case, path, working_directory=None):
         raise ValueError(via)
     if via == "qe_map":
         mult, tscale, times = 1.0, 1.0, [1.0]
+    # the loading model adds to a bucket that is NOT empty: charge clusters already in the detector
+    # (load_charge, qe map), or photons already collected (load_image)
+    import numpy as np
+
+    already = np.zeros((case["oy"], case["ox"]))
+    if case.get("pre_particles") and via in ("load_charge", "qe_map"):
+        groups["charge_generation"].insert(0, {"name": "particles", "func": "probes.c20_particles",
+                                               "arguments": {"clusters": [list(c) for c in case["pre_particles"]]}})
+        for r, c, nb in case["pre_particles"]:
+            already[r, c] += nb
+    if case.get("pre_photon") and via == "load_image":
+        groups["photon_collection"].insert(0, {"name": "fill", "func": "probes.fill",
+                                               "arguments": {"level": float(case["pre_photon"]), "bucket": "photon"}})
     mode = Exposure(readout=Readout(times=times), working_directory=working_directory)  # sets the global option
     res = pyx.run(mode, det, pyx.make_pipeline(groups))
-    # the bucket of every readout, divided by the scale the model is asked to apply (all factors are powers of two,
-    # so this is exact): what remains must be the placed content of the file
+    # the bucket of every readout, minus what was there before, divided by the scale the model is asked to apply (all
+    # values are dyadic and all factors powers of two, so this is exact): what remains must be the placed content of the file
     steps = [t - p for t, p in zip(times, [0.0] + times[:-1])]
-    return [res[bucket].values[i] / ((st / tscale) * mult) for i, st in enumerate(steps)]
+    outs = []
+    for i, st in enumerate(steps):
+        before = already + (float(case["pre_photon"]) * st if (case.get("pre_photon") and via == "load_image") else 0.0)
+        outs.append((res[bucket].values[i] - before) / ((st / tscale) * mult))
+    return outs
 
 
 def impl_load(case, path, working_directory=None):
@@ -363,6 +380,118 @@ def statement_format(case, impl):
                 if not same_values([[x]], [[y]]):
                     return f"value at ({i},{j}) read back as {unbits(x)!r}, stored {unbits(y)!r}"
     return None
+
+
+# ------------------------------------------------------------------ named columns (load_table_v2, apply_qe_curve)
+def tablev2_text(case):
+    """the file: `ncols` columns, optional header line h0, h1, …; cell (r, c) = exact dyadic value"""
+    d = SEPS[case["sep"]]
+    lines = []
+    if case["header"]:
+        lines.append(d.join(case["colnames"]))
+    for row in case["table"]:
+        lines.append(d.join(repr(unbits(v)) for v in row))
+    return "\n".join(lines) + "\n"
+
+
+def impl_tablev2(case, tmp):
+    from pyxel.inputs import load_table_v2
+
+    path = os.path.join(tmp, f"tv2_{case['id']}.{case['fmt']}")
+    with open(path, "w") as f:
+        f.write(tablev2_text(case))
+    rename = {name: (case["colnames"][idx] if case["header"] else idx) for name, idx in case["select"]}
+    try:
+        df = load_table_v2(filename=path, rename_cols=rename, header=case["header"])
+    except Exception as e:  # noqa: BLE001
+        return err_answer(e)
+    return {"columns": {str(c): [bits(v) for v in df[c].to_numpy(dtype=float)] for c in df.columns}}
+
+
+def statement_tablev2(case, impl):
+    if "err" in impl:
+        return f"load_table_v2 failed on a {case['fmt']} table ({case['sep']}-separated, header={case['header']}): {impl['err']} {impl.get('msg', '')[:100]}"
+    for name, idx in case["select"]:
+        want = [row[idx] for row in case["table"]]
+        got = impl["columns"].get(name)
+        if got is None:
+            return f"requested column '{name}' is missing from the result (columns: {sorted(impl['columns'])})"
+        if not same_values([got], [want]):
+            others = [n2 for n2, i2 in case["select"] if i2 != idx and same_values([got], [[row[i2] for row in case["table"]]])]
+            return (f"column '{name}' (file column {idx}" + (f" '{case['colnames'][idx]}'" if case["header"] else "") + ") does not hold that "
+                    "column's values" + (f": it holds the values requested as '{others[0]}'" if others else ""))
+    extra = set(impl["columns"]) - {n for n, _ in case["select"]}
+    if extra:
+        return f"columns that were not requested are returned: {sorted(extra)}"
+    return None
+
+
+def impl_qe_curve(case, tmp):
+    """`apply_qe_curve` on a file whose columns are in another order than the request"""
+    import numpy as np
+    import pyx
+    import xarray as xr
+    from pyxel.models.charge_generation import apply_qe_curve
+
+    path = os.path.join(tmp, f"qe_{case['id']}.{case['fmt']}")
+    with open(path, "w") as f:
+        f.write(tablev2_text(case))
+    wl_idx = dict(case["select"])["wavelength"]
+    qe_idx = dict(case["select"])["QE"]
+    wl = np.array([unbits(r[wl_idx]) for r in case["table"]])
+    qe = np.array([unbits(r[qe_idx]) for r in case["table"]])
+    det = pyx.make_detector("CCD", 2, 3)
+    base = np.arange(6, dtype=float).reshape(2, 3) + 1.0
+    cube = np.stack([base * (k + 1) for k in range(len(wl))])
+    det.photon.array_3d = xr.DataArray(cube, dims=["wavelength", "y", "x"], coords={"wavelength": wl})
+    try:
+        apply_qe_curve(det, filename=path,
+                       wavelength_col_name=case["colnames"][wl_idx] if case["header_names"] else wl_idx,
+                       qe_col_name=case["colnames"][qe_idx] if case["header_names"] else qe_idx)
+    except Exception as e:  # noqa: BLE001
+        return err_answer(e)
+    expect = np.trapezoid(cube * qe[:, None, None], x=wl, axis=0)
+    got = np.asarray(det.charge.array)
+    return {"ok": bool(got.shape == expect.shape and np.allclose(got, expect, rtol=1e-12, atol=0)),
+            "got": float(got.flat[0]), "expected": float(expect.flat[0])}
+
+
+def statement_qe_curve(case, impl):
+    if "err" in impl:
+        return f"apply_qe_curve failed on a valid QE file whose columns are ordered {case['colnames']}: {impl['err']} {impl.get('msg', '')[:100]}"
+    if not impl["ok"]:
+        return (f"apply_qe_curve on a file with columns {case['colnames']}: charge {impl['got']!r}, the QE column of the file gives "
+                f"{impl['expected']!r} (the named columns do not hold the file's columns)")
+    return None
+
+
+def gen_tablev2(rng, n):
+    cases = []
+    combos = [(e, sp, h) for e in ("txt", "data", "csv") for sp in SEPS for h in (False, True)]
+    for i in range(n):
+        fmt, sep, header = combos[i % len(combos)]
+        ncols = rng.choice([2, 3, 4, 5])
+        nrows = rng.choice([2, 3, 6])
+        colnames = rng.sample(["lambda", "QE", "x", "y", "weight", "flux", "t"], ncols)
+        table = [[bits(float(rng.randrange(1, 4000)) / rng.choice([1, 4, 64]) + 1000 * c) for c in range(ncols)] for _ in range(nrows)]
+        k = rng.choice([1, 2, ncols]) if ncols > 2 else rng.choice([1, 2])
+        idxs = rng.sample(range(ncols), min(k, ncols))   # permuted and / or a subset
+        if len(idxs) >= 2 and idxs == sorted(idxs) and rng.random() < 0.8:
+            idxs.reverse()
+        select = [[f"n{j}", idx] for j, idx in enumerate(idxs)]
+        cases.append({"stream": "tablev2", "id": i, "fmt": fmt, "sep": sep, "header": header, "colnames": colnames,
+                      "table": table, "select": select})
+    # apply_qe_curve: the file lists the QE column before / after the wavelength column, with other columns around
+    for i, (sep, order) in enumerate([(sp, o) for sp in SEPS for o in (["QE", "lambda"], ["lambda", "QE"], ["x", "QE", "lambda"])]):
+        wl = [400.0, 500.0, 650.0, 900.0][: rng.choice([2, 3, 4])]
+        rows = []
+        for w in wl:
+            vals = {"lambda": w, "QE": rng.randrange(1, 64) / 64.0, "x": float(rng.randrange(5))}
+            rows.append([bits(vals[c]) for c in order])
+        cases.append({"stream": "qe_curve", "id": i, "fmt": rng.choice(["csv", "txt"]), "sep": sep, "header": True, "colnames": order,
+                      "table": rows, "select": [["wavelength", order.index("lambda")], ["QE", order.index("QE")]],
+                      "header_names": True})
+    return cases
 
 
 # ------------------------------------------------------------------ Lean requests
@@ -554,9 +683,21 @@ def gen_model_cases(rng, n):
         dtype = "float64" if fmt not in ("npy", "fits") or via == "qe_map" else rng.choice(["float64", "float64", "int32", "float32"])
         if dtype != "float64":
             style = "index"
+        extra = {}
+        if via in ("load_charge", "qe_map") and rng.random() < 0.6:
+            extra["pre_particles"] = [[rng.randrange(oy), rng.randrange(ox), float(rng.choice([256, 1024, 4096]))]
+                                      for _ in range(rng.choice([1, 2, 3]))]
+        if via == "load_image" and rng.random() < 0.5:
+            extra["pre_photon"] = float(rng.choice([64, 512, 2048]))
         cases.append({"stream": "model", "id": i, "via": via, "fmt": fmt, "sep": sep, "ay": ay, "ax": ax, "oy": oy, "ox": ox,
                       "pos": pos, "align": align, "dtype": dtype, "arr": gen_values(rng, ay, ax, style),
-                      "numfmt": rng.choice(["%.18e", "%.17g"])})
+                      "numfmt": rng.choice(["%.18e", "%.17g"]), **extra})
+    # directed: load_charge into non-square detectors that already hold charge clusters
+    for k, (oy, ox) in enumerate([(3, 5), (5, 3), (2, 7), (4, 1)]):
+        for align in (None, "center"):
+            cases.append({"stream": "model", "id": f"particles{k}{align}", "via": "load_charge", "fmt": "npy", "sep": None,
+                          "ay": 2, "ax": 3, "oy": oy, "ox": ox, "pos": [1, 0] if oy > 1 else [0, 0], "align": align, "dtype": "float64",
+                          "arr": gen_values(rng, 2, 3, "index"), "numfmt": "%.18e", "pre_particles": [[oy - 1, ox - 1, 4096.0], [0, 0, 256.0]]})
     return cases
 
 
@@ -706,6 +847,12 @@ def evaluate(case, tmp):
     if s == "format":
         impl, _ = impl_format(case, tmp)
         return impl, statement_format(case, impl)
+    if s == "tablev2":
+        impl = impl_tablev2(case, tmp)
+        return impl, statement_tablev2(case, impl)
+    if s == "qe_curve":
+        impl = impl_qe_curve(case, tmp)
+        return impl, statement_qe_curve(case, impl)
     raise ValueError(s)
 
 
@@ -717,6 +864,10 @@ def violation_key(case, why):
         return f"C20:{case['via']}:placement"
     if s == "history":
         return "C20:stale-cache" if ("returned version" in why or "missing file" in why) else "C20:loaded-value-not-file-content" if ("neither the file" in why or "do not hold" in why) else "C20:history"
+    if s == "tablev2":
+        return "C20:load_table_v2:" + ("named-column-holds-other-column" if "does not hold" in why else "error-or-missing")
+    if s == "qe_curve":
+        return "C20:apply_qe_curve:named-columns"
     return f"C20:load_{case['loader']}:{'text' if case['fmt'] in ('txt', 'data', 'csv') else case['fmt']}:" + (
         "values" if "value at" in why else "shape-or-error")
 
@@ -734,6 +885,7 @@ def body(ck: common.Check):
     cases += gen_model_cases(rng, 250 if quick else 2000)
     cases += gen_history(rng, 50 if quick else 400)
     cases += gen_format(rng, 600 if quick else 6000)
+    cases += gen_tablev2(rng, 120 if quick else 1200)
 
     tmp = tempfile.mkdtemp(prefix="verif-c20-")
     try:
@@ -758,6 +910,8 @@ def body(ck: common.Check):
                     reqs.append({"op": "text", "lines": buf.getvalue().splitlines()})
                 else:
                     reqs.append({"op": "text", "lines": []})  # placeholder keeps the batch aligned
+            elif s in ("tablev2", "qe_curve"):
+                reqs.append({"op": "select", "table": c["table"], "sel": c["select"]})
         answers = LeanDriver("C20").batch(reqs)
 
         for n, (case, ans) in enumerate(zip(cases, answers)):
@@ -775,6 +929,9 @@ def body(ck: common.Check):
                 ck.count(f"{s}:outcome={'ok' if 'ok' in impl else impl.get('tag', impl['err'])}")
                 if s == "model":
                     ck.count(f"model:via={case['via']}")
+                    ck.count("model:bucket-before-load=" + ("charge clusters" if case.get("pre_particles") and case["via"] != "load_image" and case["via"] != "direct"
+                                                             else "photons" if case.get("pre_photon") and case["via"] == "load_image" else "empty")
+                             + (":non-square" if case["oy"] != case["ox"] else ":square"))
                     ck.count(f"model:fmt={case['fmt']}" + (f"/{case['sep']}" if case["sep"] else ""))
                 model = lean_fit_answer(ans)
                 mine = {"ok": impl["ok"]} if "ok" in impl else {"err": impl["err"], "tag": impl.get("tag")}
@@ -807,6 +964,19 @@ def body(ck: common.Check):
                              "history:behaves-like-identity-of-unresolved-name" if lab == ans["unresolved"] else "history:other-disagreement")
                 if ans["model"] != ans["spec"]:
                     raise common.InfraError("Lean memo model and its spec disagree — model bug")
+            elif s in ("tablev2", "qe_curve"):
+                ck.case(case, nontrivial=True, stream=s)
+                idxs = [i for _, i in case["select"]]
+                ck.count(f"{s}:{case['fmt']}/{case['sep']}:" + ("header" if case["header"] else "no-header"))
+                ck.count(f"{s}:request=" + ("file-order" if idxs == sorted(idxs) else "permuted") + (":subset" if len(idxs) < len(case["table"][0]) else ":all"))
+                if s == "tablev2":
+                    model = {n: v for n, v in ans["model"]}
+                    mine = None if "err" in impl else impl["columns"]
+                    if mine is None or set(mine) != set(model) or any(not same_values([mine[k]], [model[k]]) for k in model):
+                        positional = {n: v for n, v in ans["positional"]}
+                        like = mine is not None and set(mine) == set(positional) and all(same_values([mine[k]], [positional[k]]) for k in positional)
+                        ck.count("tablev2:behaves-like-positional-naming" if like else "tablev2:other-disagreement")
+                        ck.disagreement(s, case, mine, model)
             elif s == "format":
                 ck.case(case, nontrivial=case["ay"] * case["ax"] > 1, stream=s)
                 ck.count(f"format:{case['loader']}:{case['fmt']}" + (f"/{case['sep']}" if case["sep"] else ""))
@@ -830,7 +1000,8 @@ def body(ck: common.Check):
                "exposure and load_cropped_and_aligned_image, from npy / FITS / text×5 separators; histories of writes (in place / atomic "
                "replace, same and different sizes), removals and loads in one process; format round trips of load_image and load_table "
                "(npy, FITS image / FITS table, txt/data/csv × 5 separators; one third of the files 12-41 rows × 5-24 columns; ints, random doubles, arbitrary bit patterns, NaN/inf/±0/"
-               "subnormal). non-trivial = more than one pixel; distinct by canonical JSON" % ((3, 3) if quick else (4, 4)))
+               "subnormal); load_table_v2 with rename_cols selecting all / a subset of 2-5 file columns in file or permuted order, by index "
+               "and by header name, txt/data/csv × 5 separators; apply_qe_curve on QE files whose columns are ordered either way. non-trivial = more than one pixel; distinct by canonical JSON" % ((3, 3) if quick else (4, 4)))
     ck.assumptions = [
         "6b: an error is required iff the row ranges or the column ranges are disjoint; allow_smaller_array=False is outside the statement",
         "`center` with an odd slack: the statement accepts either neighbouring offset; the model (truncation toward zero) is compared separately",
